@@ -72,7 +72,7 @@ def schedules(ns, aligned_only=False):
     return res
 
 
-def h_chunk(f, ns, sched, start='zero', pastify=False, oracle='both', grid=None, grids=None):
+def h_chunk(f, ns, sched, start='zero', pastify=False, oracle='both', grid=None, grids=None, cover=False):
     f = T(f)
     vs = sorted(variables(f))
     op = f[0]
@@ -98,9 +98,13 @@ def h_chunk(f, ns, sched, start='zero', pastify=False, oracle='both', grid=None,
         env.observe('cat', cat)
         res = ct.wellformed(A, cat, 'cat')
         if not cat:
-            return res
+            # cover: signals that all start at 0, a future-free formula: once every sample has been fed the output is not empty ...
+            return res + ([('covers-the-signal', A.false)] if cover else [])
         sl = [sigs[v] for v in vs]
         S, E = refct.domain(A, sl)
+        if cover:
+            # ... and starts where the common domain starts
+            res.append(('covers-the-signal', A.le(cat[0][0], S)))
         tau = env.real('tau')
         env.assume(A.And(A.le(cat[0][0], tau), A.le(tau, cat[-1][0]), A.le(S + h, tau), A.le(tau, E)))
         got = refct.val(A, cat, tau)
@@ -172,7 +176,7 @@ def obligations(tier, rng):
         for ns in ([[2, 2]] if quick else [[2, 2], [3, 2]]):
             sch = schedules(ns)
             for sched in ([sch[0], sch[-1], sch[len(sch) // 2]] if quick else sch):
-                out.append(ob('C05', 'chunk', 'sibling/%s/n=%s/%s' % (text(f), ns, _sname(sched)), f=f, ns=ns, sched=sched, oracle='offline', max_paths=60000, wall=1500))
+                out.append(ob('C05', 'chunk', 'sibling/%s/n=%s/%s' % (text(f), ns, _sname(sched)), f=f, ns=ns, sched=sched, oracle='offline', cover=True, max_paths=60000, wall=1500))
     # all depth-2 nestings of the unary online operators over one variable (relational: real offline evaluator)
     un1 = [lambda g: ('not', g), lambda g: ('abs', g), lambda g: ('once', g), lambda g: ('historically', g),
            lambda g: ('once_t', g, 0, 1), lambda g: ('historically_t', g, 1, 2), lambda g: ('geq', g, ('const', 0.5))]
